@@ -212,8 +212,15 @@ func (s *Sorts) sortOf(t types.Type) string {
 // ensureOption declares the monomorphic option type over an element sort and
 // returns the mangled element name used in its constructor names
 // (Opt_X = none_X | some_X(val_X)).
+// theorySorts: sorts declared by theory modules (declare-datatypes / declare-sort in theory/*.smt2). The module
+// that declares such a sort also declares its monomorphic option sort (Opt_X), after the sort itself.
+var theorySorts = map[string]bool{}
+
 func (s *Sorts) ensureOption(el string) string {
 	m := mangle(el)
+	if theorySorts[el] {
+		return m
+	}
 	s.addDecl("Opt_"+m, fmt.Sprintf("(declare-datatypes ((Opt_%s 0)) (((none_%s) (some_%s (val_%s %s)))))", m, m, m, m, el))
 	return m
 }
